@@ -574,6 +574,9 @@ def gen_plan(seed: int, cls: str) -> dict:
         ops[pos:pos] = extra
     if roots and ro.random() < 0.45:
         ops.extend(_equal_values_scenario(ro, sym, roots, pick_custom))
+    if ro.random() < 0.3:
+        pos = ro.randrange(len(ops) + 1)
+        ops[pos:pos] = _error_content_scenario(ro, sym)
     if ro.random() < 0.3 and ndict < 5:
         extra = _handler_identity_scenario(ro, sym, ndict, knobs)
         ndict += 2
@@ -681,6 +684,27 @@ def _near_miss_scenario(ro, sym, roots, nroot, pick_custom):
     except HarnessError:
         pass
     return out, nroot
+
+
+def _error_content_scenario(ro, sym):
+    """
+    Failures whose error trees carry captured causes (a bad Fraction / Decimal literal, a failing element deep inside a
+    container, a user condition whose predicate raises), one after another through unrelated types: the *content* of
+    each error - message, tree, the chain of causes - must be that of the failing call alone.  Every probe is also
+    judged against a process that has never failed before.
+    """
+    history = [(['s', 'Fraction'], 'hunter2'), (['list', ['s', 'Decimal']], ['1.5', 'x']), (['s', 'date'], 'not-a-date'),
+               (['dict', ['s', 'str'], ['s', 'Fraction']], {'k': '1/0'}), (['union', ['s', 'int'], ['s', 'Fraction']], 'zz'),
+               (['tuple', ['s', 'int'], ['s', 'Pattern']], [1, '(']), (['ann', ['s', 'str'], 'first_upper'], '')]
+    probes = [(['opt', ['ann', ['s', 'str'], 'first_upper']], ''), (['union', ['ann', ['s', 'str'], 'first_upper'], ['s', 'int']], ''),
+              (['list', ['opt', ['ann', ['s', 'str'], 'first_upper']]], ['Ok', '']), (['opt', ['s', 'Fraction']], '1/0'),
+              (['union', ['s', 'Decimal'], ['s', 'int']], 'nope'), (['ann', ['s', 'str'], 'first_upper'], '')]
+    out = []
+    for (ast, data) in ro.sample(history, ro.choice([1, 2, 3])):
+        out.append({'op': 'inline', 't': tg.normalise_unions(ast), 'data': tg.enc(data), 'custom': None})
+    for (ast, data) in ro.sample(probes, ro.choice([1, 2])):
+        out.append({'op': 'inline', 't': tg.normalise_unions(ast), 'data': tg.enc(data), 'custom': None, 'pristine': True})
+    return out
 
 
 def _handler_identity_scenario(ro, sym, ndict, knobs):
@@ -1406,6 +1430,8 @@ class Exec:
             return
         root = op['root']
         cs = {'kind': 'convert', 'root': root, 'data': op['data'], 'custom': op['custom']}
+        if op.get('pristine'):
+            cs['always_pristine'] = True
         self.compare(f"from_data(<{root}>, custom={op['custom']})", self.mk_from_cs(cs), deps=[('root', root)], cs=cs)
         self.count('op_convert')
 
@@ -1418,6 +1444,8 @@ class Exec:
             self.trace.add('skip', i, 'build-raised')
             return
         cs = {'kind': 'inline', 't': op['t'], 'data': op['data'], 'custom': op['custom']}
+        if op.get('pristine'):
+            cs['always_pristine'] = True
         self._inline_holder = holder
         mk = self.mk_from_cs(cs)
         # the pristine-process oracle cannot see roots referenced by name unless they are dependencies
